@@ -67,8 +67,7 @@ package jsondb
 
 //@ fn (*writer).open(w) (err)
 //@   props C07
-//@   modifies w.file, w.writer, heap(alloc), ghost fs.seq, ghost fs.mkdirs, ghost fs.appends, ghost fs.last_append_opened, ghost fs.creates, ghost fs.last_created,
-//@            ghost eff.fs, ghost obs.exists_calls, ghost obs.exists, ghost obs.exists_path, ghost obs.stat_err, ghost obs.stat_path
+//@   modifies w.file, w.writer, heap(alloc), ghost fs.seq, ghost fs.mkdirs, ghost fs.appends, ghost fs.last_append_opened, ghost fs.creates, ghost fs.last_created, ghost eff.fs, ghost obs.exists*, ghost obs.stat*, ghost obs.mkdir*, ghost obs.glob*
 //@   ensures [C07 closed_writer_is_not_reopened] old(w.closed) ==> (err != nil && fs.seq == old(fs.seq))
 //@   ensures [C07 existing_history_file_is_never_truncated] fs.creates != old(fs.creates) ==>
 //@        (fs.creates == old(fs.creates) + 1 && fs.last_created == w.target && obs.exists_path == w.target && !obs.exists)
@@ -119,7 +118,7 @@ package jsondb
 
 //@ fn ParseFile(file) (st, err)
 //@   props C06 C07 C08
-//@   modifies heap(alloc), ghost rd.lines, ghost rd.calls, ghost obs.json_st, ghost obs.json_err, ghost obs.json_calls, ghost obs.json_ok, ghost obs.json_last_ok
+//@   modifies heap(alloc), ghost rd.*, ghost obs.json_st, ghost obs.json_err, ghost obs.json_calls, ghost obs.json_ok, ghost obs.json_last_ok
 //@   records obs.parse_calls = old(obs.parse_calls) + 1
 //@   records obs.parse_st = st
 //@   records obs.parse_err = err
@@ -139,12 +138,7 @@ package jsondb
 //@ ghost compact.calls int
 //@ fn (*JSONDB).Compact(s, original) (err)
 //@   props C07
-//@   modifies heap(alloc), heap(writer), ghost fs.seq, ghost fs.mkdirs, ghost fs.appends, ghost fs.last_append_opened, ghost fs.creates, ghost fs.last_created,
-//@            ghost fs.removes, ghost fs.last_removed, ghost fs.remove_seq, ghost eff.fs, ghost obs.exists_calls, ghost obs.exists, ghost obs.exists_path, ghost obs.stat_err, ghost obs.stat_path,
-//@            ghost bw.seq, ghost bw.write_seq, ghost bw.last_write, ghost bw.byte_seq, ghost bw.last_byte, ghost bw.flush_seq, ghost bw.flush_err, ghost bw.pending,
-//@            ghost obs.marshal_out, ghost obs.marshal_in, ghost wr.writes, ghost wr.last_target, ghost wr.last_err, ghost wr.last_status,
-//@            ghost rd.lines, ghost rd.calls, ghost obs.json_st, ghost obs.json_err, ghost obs.json_calls, ghost obs.json_ok, ghost obs.json_last_ok,
-//@            ghost obs.parse_calls, ghost obs.parse_st, ghost obs.parse_err, ghost obs.parse_file
+//@   modifies heap(alloc), heap(writer), ghost fs.*, ghost eff.fs, ghost obs.exists*, ghost obs.stat*, ghost obs.mkdir*, ghost obs.glob*, ghost obs.marshal*, ghost obs.json*, ghost obs.parse*, ghost bw.*, ghost wr.*, ghost rd.*
 //@   records compact.calls = old(compact.calls) + 1
 //@   assert before os.Remove [C07 nothing_is_removed_before_the_copy_was_attempted] wr.writes == old(wr.writes) + 1 && wr.last_status == obs.parse_st && obs.parse_file == original
 //@   assert before os.Remove#1 [C07 original_removed_only_after_the_copy_is_acknowledged] arg0 == original && wr.last_err == nil
@@ -163,8 +157,7 @@ package jsondb
 
 //@ fn (*JSONDB).Open(s, dagFile, t, requestID) (err)
 //@   props C06 C07
-//@   modifies s.writer, heap(alloc), heap(writer.file), heap(writer.writer), ghost fs.seq, ghost fs.mkdirs, ghost fs.appends, ghost fs.last_append_opened, ghost fs.creates, ghost fs.last_created,
-//@            ghost eff.fs, ghost obs.exists_calls, ghost obs.exists, ghost obs.exists_path, ghost obs.stat_err, ghost obs.stat_path
+//@   modifies s.writer, heap(alloc), heap(writer.file), heap(writer.writer), ghost fs.seq, ghost fs.mkdirs, ghost fs.appends, ghost fs.last_append_opened, ghost fs.creates, ghost fs.last_created, ghost eff.fs, ghost obs.exists*, ghost obs.stat*, ghost obs.mkdir*, ghost obs.glob*
 //@   ensures [C06 run_is_recorded_in_the_dag_s_own_directory] err == nil ==> (s.writer != nil && s.writer.target ==
 //@        hist_prefix(s, dagFile) + "." + time_format(t, "20060102.15:04:05.000") + "." + ite(len(requestID) > 8, substr(requestID, 0, 8), requestID) + ".dat")
 //@   ensures [C07 open_never_truncates_another_run] fs.creates != old(fs.creates) ==> !obs.exists
@@ -190,8 +183,7 @@ package jsondb
 //@ ghost obs.found bool
 //@ fn (*JSONDB).FindByRequestID(s, dagFile, requestID) (sf, err)
 //@   props C06 C20
-//@   modifies heap(alloc), heap(elems(string)), ghost obs.glob_pattern, ghost obs.glob_calls, ghost obs.glob_matches, ghost rd.lines, ghost rd.calls, ghost obs.json_st, ghost obs.json_err, ghost obs.json_calls,
-//@            ghost obs.json_ok, ghost obs.json_last_ok, ghost obs.parse_calls, ghost obs.parse_st, ghost obs.parse_err, ghost obs.parse_file
+//@   modifies heap(alloc), heap(elems(string)), ghost obs.exists*, ghost obs.stat*, ghost obs.mkdir*, ghost obs.glob*, ghost obs.json*, ghost obs.parse*, ghost rd.*
 //@   records obs.found_file = ite(err == nil, sf.File, "")
 //@   records obs.found = (err == nil)
 //@   ensures [C06 empty_request_id_is_not_found] requestID == "" ==> err != nil
@@ -202,7 +194,7 @@ package jsondb
 
 //@ fn (*JSONDB).RemoveOld(s, dagFile, retentionDays) (err)
 //@   props C06 C18
-//@   modifies heap(alloc), ghost obs.glob_pattern, ghost obs.glob_calls, ghost obs.glob_matches, ghost obs.stat_err, ghost obs.stat_path, ghost fs.seq, ghost fs.removes, ghost fs.last_removed, ghost fs.remove_seq, ghost eff.fs
+//@   modifies heap(alloc), ghost obs.exists*, ghost obs.stat*, ghost obs.mkdir*, ghost obs.glob*, ghost fs.*, ghost eff.fs
 //@   ensures [C06 negative_retention_removes_nothing] retentionDays < 0 ==> fs.removes == old(fs.removes)
 //@   assert before os.Remove [C06 retention_removes_only_this_dag_s_runs] glob_match(hist_pattern(s, dagFile), arg0) && arg0 == m
 //@   assert before os.Remove [C06 retention_removes_only_old_runs] obs.stat_path == arg0 && obs.stat_err == nil && mod_time(info) < ot && (exists now time.Time :: ot == add_date(now, 0, 0, 0 - retentionDays))
@@ -213,7 +205,7 @@ package jsondb
 
 //@ fn (*JSONDB).RemoveAll(s, dagFile) (err)
 //@   props C06 C18
-//@   modifies heap(alloc), ghost obs.glob_pattern, ghost obs.glob_calls, ghost obs.glob_matches, ghost obs.stat_err, ghost obs.stat_path, ghost fs.seq, ghost fs.removes, ghost fs.last_removed, ghost fs.remove_seq, ghost eff.fs
+//@   modifies heap(alloc), ghost obs.exists*, ghost obs.stat*, ghost obs.mkdir*, ghost obs.glob*, ghost fs.*, ghost eff.fs
 //@   expect calls (*JSONDB).RemoveOld >= 1
 //@   assert before (*JSONDB).RemoveOld [C06 delete_is_retention_zero_on_this_dag_only] arg0 == s && arg1 == dagFile && arg2 == 0
 
@@ -243,14 +235,14 @@ package jsondb
 //@ fn (*JSONDB).latest(s, pattern, n) (r)
 //@   props C06
 //@   requires n >= 0
-//@   modifies heap(alloc), heap(elems(string)), ghost obs.glob_pattern, ghost obs.glob_calls, ghost obs.glob_matches
+//@   modifies heap(alloc), heap(elems(string)), ghost obs.exists*, ghost obs.stat*, ghost obs.mkdir*, ghost obs.glob*
 //@   ensures [C06 latest_come_from_the_pattern] forall i int :: 0 <= i && i < len(r) ==> glob_match(pattern, r[i])
 //@   ensures [C06 latest_newest_first] forall i int, j int :: 0 <= i && i < j && j < len(r) ==> !(ts_of(r[i]) < ts_of(r[j]))
 //@   ensures len(r) <= n
 
 //@ fn (*JSONDB).latestToday(s, dagFile, day, latestStatusToday) (r, err)
 //@   props C06 C08
-//@   modifies heap(alloc), heap(elems(string)), ghost obs.glob_pattern, ghost obs.glob_calls, ghost obs.glob_matches
+//@   modifies heap(alloc), heap(elems(string)), ghost obs.exists*, ghost obs.stat*, ghost obs.mkdir*, ghost obs.glob*
 //@   ensures [C06 latest_run_is_of_this_dag] err == nil ==> glob_match(obs.glob_pattern, r)
 //@   ensures [C06 latest_run_is_the_newest] err == nil ==> (forall i int :: 0 <= i && i < len(obs.glob_matches) ==> !(ts_of(r) < ts_of(obs.glob_matches[i])))
 //@   ensures [C06 latest_run_pattern] obs.glob_pattern == ite(latestStatusToday,
@@ -305,6 +297,8 @@ package jsondb
 //@   props C06 C18
 //@   modifies *
 //@   ensures [C18 refused_rename_moves_nothing] err != nil ==> (fs.renames == old(fs.renames) && fs.removes == old(fs.removes))
+//@   ensures [C18 history_rename_is_refused_only_for_a_reason] err != nil ==>
+//@        (!is_abs(add_yaml(oldID)) || !is_abs(add_yaml(newID)) || obs.mkdir_err != nil || obs.glob_err != nil)
 //@   assert before os.Rename [C18 each_run_moves_to_the_new_name_s_directory]
 //@        arg0 == m && glob_match(hist_pattern(s, on), m) &&
 //@        arg1 == path_join(hist_dir(s, nn), str_replace(path_base(m), path_base(hist_prefix(s, on)), path_base(hist_prefix(s, nn)), 1))
